@@ -7,10 +7,32 @@ Every replica has two model texts, mirroring `document.Document`: `root` (`d.doc
 version vector; a remote change applies to both with its version vector. The harness prints one
 `OP <replica> <side> …` line per application, so the model replays exactly what each side saw.
 
+REBUILT texts. Besides being built by operations, a Text is rebuilt from another one on three paths
+of the Go code; the model's side of each of them is a COPY OF THE STATE, i.e. the identity on
+`Side` (`tc`, `st`): that identity is the specification the Go function has to meet, and it is what
+the dumps `D`/`DC` (ids, lengths, `removedAt`, `insPrev`, attribute registers with their tickets and
+removed flags) and every later operation replayed on the copy compare against:
+  * `RC r`        after a failed `Update` (callback returned an error / panicked) the Document drops
+                  `cloneRoot`; the next access re-creates it with `Root.DeepCopy` → `Text.DeepCopy`
+                  (+ `RGATreeSplitNode.DeepCopy`, `TextValue.DeepCopy`, `RHT.DeepCopy`):
+                  `clone := root`;
+  * `SNAP src dst` a new replica is created from `SnapshotToBytes(src root)` → `ApplyChangePack`
+                  (`toTextNodes`/`fromJSONText`/`fromTextNode`) and its clone by `Text.DeepCopy` of
+                  the decoded text: `dst.root := src.root`, `dst.clone := src.root`.
+No theorem is needed for "copy = identity": `marshal`, `visible`, `posOfIndex`, `edit`, `styleOp` are
+functions of `(tc, st)` only, so equal states are indistinguishable by definition; all C07Text
+theorems (`wf_reachable`, `text_edit_spec`, …) are stated over any state satisfying `WF`, and a copy
+of a reachable state is that reachable state.
+
 Lines (written by harness/eng_text.go):
   R <rep> <actor>                          new replica                                  → ok
   U <rep> <call>… | S <rep> | Z <rep> | Q  API-level lines (update / sync / undo-style / quiescence
                                            check) executed by the harness only          → (nothing)
+  F <rep> <err|panic|misuse> <call>…       API-level: failing update                    → (nothing)
+  SN <src> <dst> <actor>                   API-level: sync src, feed new replica dst from a snapshot
+                                           of src                                       → (nothing)
+  RC <rep>                                 the clone of rep was dropped and re-created   → ok
+  SNAP <src> <dst>                         dst was created from a snapshot of src's root → ok
   OP <rep> <side> new t=<ticket>           `Set "t" := NewText` executed on that side   → ok
   OP <rep> <side> edit p=<ticket> from=<l:d:a:off:rel> to=… content=<pct> attrs=<k:v,…> t=<ticket>
        vv=<{a:l,…}|-> spans=<n>                                                         → ok|err|unsupported
@@ -134,6 +156,15 @@ def step (s : St) (toks : List String) : St × List String :=
   | "SS" :: _ => (s, [])
   | "SA" :: _ => (s, [])
   | "Q" :: _ => (s, [])
+  | "F" :: _ => (s, [])
+  | "SN" :: _ => (s, [])
+  -- rebuilt texts: a copy is the identity on the model state (see the header)
+  | ["RC", r] =>
+    let x := getRep s r
+    (setRep s r { x with clone := x.root }, ["ok"])
+  | ["SNAP", src, dst] =>
+    let x := getRep s src
+    (setRep s dst { root := x.root, clone := x.root }, ["ok"])
   | "OP" :: r :: side :: rest =>
     let x := getRep s r
     match applyOp (getSide x side) rest with
